@@ -546,11 +546,12 @@ package jsonpatch
 //@   invariant numbers-so-far: forall k string {domsel(b, k)} :: visited(k) && k in b && k in a && istype(a[k], float64) && istype(b[k], float64) ==> ((k in into) <==> unbox(a[k], float64) != unbox(b[k], float64)) && (k in into ==> into[k] == b[k])
 //@   invariant bools-so-far: forall k string {domsel(b, k)} :: visited(k) && k in b && k in a && istype(a[k], bool) && istype(b[k], bool) ==> ((k in into) <==> unbox(a[k], bool) != unbox(b[k], bool)) && (k in into ==> into[k] == b[k])
 //@   invariant nulls-so-far: forall k string {domsel(b, k)} :: visited(k) && k in b && k in a && a[k] == nil && b[k] == nil ==> !(k in into)
-//@   invariant nested-so-far: forall k string {domsel(b, k)} :: visited(k) && k in b && k in a && istype(a[k], map[string]any) && istype(b[k], map[string]any) && k in into ==> istype(into[k], map[string]any) && len(unbox(into[k], map[string]any)) > 0
+//@   invariant nested-so-far: forall k string {domsel(b, k)} :: visited(k) && k in b && k in a && istype(a[k], map[string]any) && istype(b[k], map[string]any) && k in into ==> istype(into[k], map[string]any) && len(unbox(into[k], map[string]any)) > 0 && allocated(unbox(into[k], map[string]any)) && unbox(into[k], map[string]any) != into
 //@   invariant arrays-so-far: forall k string {domsel(b, k)} :: visited(k) && k in b && k in a && istype(a[k], []any) && istype(b[k], []any) && k in into ==> into[k] == b[k]
 //@   loop 2
 //@   invariant into: into != nil && fresh(into)
 //@   invariant only-members: forall k string {domsel(into, k)} :: k in into ==> k in b || (visited(k) && k in a)
+//@   invariant nested-kept: forall k string {domsel(b, k)} :: k in b && k in a && istype(a[k], map[string]any) && istype(b[k], map[string]any) && k in into ==> istype(into[k], map[string]any) && len(unbox(into[k], map[string]any)) > 0 && allocated(unbox(into[k], map[string]any)) && unbox(into[k], map[string]any) != into
 //@   invariant removed-so-far: forall k string {domsel(a, k)} :: visited(k) && k in a && !(k in b) ==> k in into && into[k] == nil
 //@   invariant members-of-b-kept: forall k string {domsel(b, k)} :: k in b ==> ((k in into) <==> atentry(k in into)) && into[k] == atentry(into[k])
 
